@@ -61,7 +61,10 @@ func (w *UDPAssociateWrapper) ReadFrom(p []byte) (n int, addr net.Addr, err erro
 		return
 	}
 
-	n, err = r.Read(p)
+	// The rest of the packet is the payload. Copy it directly:
+	// bytes.Reader.Read returns io.EOF when the payload is empty,
+	// but an empty UDP payload is a valid packet.
+	n = copy(p, b[len(b)-r.Len():])
 	// Caller may expect the returned address to be *net.UDPAddr.
 	addr = &net.UDPAddr{
 		IP:   destination.IP,
